@@ -66,6 +66,21 @@ class TaggedTimeout(socket.timeout):
         self.tag = tag
 
 
+def make_special_exc(kind, tag):
+    """Exception types the library itself gives a meaning to, raised by a step of a transfer that was NOT cancelled (e.g. a
+    source stream fed by another, cancelled, future): concurrent.futures.CancelledError (= s3transfer's CancelledError) and
+    FatalError.  They are failures like any other."""
+    if kind not in ('cancelled_exc', 'fatal_exc'):
+        return None
+    from s3transfer.exceptions import CancelledError, FatalError
+
+    base = CancelledError if kind == 'cancelled_exc' else FatalError
+    cls = type('Tagged' + base.__name__, (base,), {})
+    e = cls(tag)
+    e.tag = tag
+    return e
+
+
 STREAM_KINDS = ('timeout', 'connreset', 'readtimeout', 'protocol', 'incomplete')
 
 
